@@ -115,43 +115,6 @@ Definition rpow (oc : bool) (x y : bigrat) : res (bigrat * bool) :=
   pow_level oc (Some (pow_level oc None)) x y.
 
 (* ------------------------------------------------------------------ *)
-(* well-formedness; the inputs on which the BigUint defects are reached *)
+(* well-formedness *)
 
 Definition wfr (x : bigrat) : bool := wf (rnum x) && wf (rden x) && negb (is_zero (rden x)).
-
-(* does the BigUint::add performed by add_pos fall into add_known? *)
-Definition add_pos_known (oc : bool) (x y : bigrat) : bool :=
-  if is_neg (rsign y) then false
-  else if is_eq (rden x) (rden y) then add_known (rnum x) (rnum y)
-  else
-    match gcd oc (rden x) (rden y) with
-    | Ok g =>
-      match div oc (mul (rnum x) (rden y)) g, div oc (mul (rnum y) (rden x)) g with
-      | Ok a, Ok b => add_known a b
-      | _, _ => false
-      end
-    | _ => false
-    end.
-
-Definition radd_known (oc : bool) (x y : bigrat) : bool :=
-  match rsign x with
-  | Negative => add_pos_known oc (rneg x) (rneg y)
-  | Positive => add_pos_known oc x y
-  end.
-
-Definition rcmp_known (oc : bool) (x y : bigrat) : bool := radd_known oc x (rneg y).
-
-(* pow: the exponent numerator after simplification is what BigUint::pow
-   sees; for a negative exponent the function runs a second time on the
-   already simplified operands *)
-Definition rpow_known (oc : bool) (x y : bigrat) : bool :=
-  match simplify oc x, simplify oc y with
-  | Ok x1, Ok y1 =>
-    if is_neg (rsign y1) then
-      match simplify oc x1, simplify oc (mkrat Positive (rnum y1) (rden y1)) with
-      | Ok x2, Ok y2 => pow_known (rnum x2) (rnum y2)
-      | _, _ => false
-      end
-    else pow_known (rnum x1) (rnum y1)
-  | _, _ => false
-  end.
